@@ -484,6 +484,10 @@ class Graph:
         memo, mmemo, rawmemo = {}, {}, {}
         for n in self.nodes:
             S = n.spec
+            if self.conflated(S, util.reach(S, util.spec_bases)[1]):
+                # an ancestry holding two equal-keyed interfaces: the library treats them as one (DESIGN 7.2)
+                ctx.count('nodes_skipped_conflated_twins')
+                continue
             sro = list(S.__sro__)
             ctx.ev()
             ctx.count('nodes_checked')
@@ -601,7 +605,7 @@ def run_case(ctx, rng, job):
             g.add_class()
         else:
             g.add_instance()
-    if prop == 'C02' and rng.random() < 0.35:
+    if (prop == 'C02' and rng.random() < 0.35) or (prop == 'C03' and not LEGACY and rng.random() < 0.2):
         g.add_twin()
     check_all = (lambda: (g.check_reach(), g.check_twin())) if prop == 'C02' else g.check_orders
     # "interleaved with queries": besides histories queried after every mutation, histories queried only now and
@@ -624,7 +628,7 @@ def run_case(ctx, rng, job):
         if g.dead or len(g.nodes) < 2:
             break
         r = rng.random()
-        if prop == 'C02' and any(m.kind == 'twin' for m in g.nodes) and rng.random() < 0.5:
+        if any(m.kind == 'twin' for m in g.nodes) and rng.random() < 0.5:
             if g.twin_ops():
                 done += 1
                 check()
